@@ -17,7 +17,7 @@ THEOREMS = ["C12_through_points", "C12_newton_form", "C12_polynomial", "C12_deri
             "C12_order_points_any", "C12_order_independent_any", "C12_stored_pipeline_any",
             "C12_constructor_any", "C12_constructor_order_independent_any", "C12_constructor_forms_any", "C12_copy_any",
             "C12_duplicates_any", "C12_polynomial_any",
-            "C12_root_step", "C12_root_sound", "C12_root_witness", "C12_root_any", "C12_grid_b64", "C12_grid_found"]
+            "C12_root_step", "C12_root_progress", "C12_root_sound", "C12_root_witness", "C12_root_any", "C12_grid_b64", "C12_grid_found"]
 PROOF_TIMEOUT = {"quick": 1500, "thorough": 3000}
 EXHAUSTIVE = False
 MANIFEST = {
@@ -34,10 +34,12 @@ MANIFEST = {
              "keeps the bracket invariant (induction on the loop fuel); for every stored table of 3..64 points and max_iter < 5000 the "
              "outcome is a float inside the ordered, clamped [xl, xh] with |interpolant| <= tol, or ValueError - nothing else (the "
              "model's OutOfFuel is impossible; callees proved total).  PARTIAL CORRECTNESS: that a root is returned for every sign "
-             "change is not proved.  Symbolic 3-point instances (Lagrange parabola) kept; binary64 kernel evaluation of root/minmax on "
+             "change is not proved; after the repair edeb4b4 every fallback step provably shrinks the bracket to at most 90 % "
+             "(C12_root_progress).  Symbolic 3-point instances (Lagrange parabola) kept; binary64 kernel evaluation of root/minmax on "
              "an explicit grid (24 tables x all limit pairs, 756 roots found) against an independent Lagrange reference; "
              "bit-exact correspondence incl. the four Coordinates helpers; Fraction-exact search oracle for n = 2..9 incl. the "
-             "ordinates-only form, mixed forms and copy/set call sequences."),
+             "ordinates-only form, mixed forms and copy/set call sequences; the oracle holds values/derivatives to 1e-9 relative to "
+             "max(1, max|y|) and roots/extrema to the object's tolerance plus the rounding of its own evaluation, on all tables."),
     "technique": "induction over the generated loops (generic loop-shape theorems matched against the generated text by unification) + "
                  "call-by-value symbolic evaluation (pyrunv) + field/lra/Coquelicot in the ideal instance; pure real analysis "
                  "(Neville recursion, polynomial uniqueness) in Spec/Newton.v; vm_compute reflection over a finite grid in binary64; "
@@ -54,13 +56,13 @@ EXPLANATION = ("Every generated loop of Interpolation (set, _order_points, _comp
                "correspondence and the exact-rational search only.")
 CLAUSES = {
     "passes through every tabulated point": "proved [ideal, ANY n in 1..64 on the stored object (symbolic lists, abscissae pairwise >= tol apart): __call__ returns y_j at every x_j (C12_call_any; this is the |x - xi| < tol shortcut) AND the Newton polynomial it evaluates between the nodes passes through every point (C12_interpolates_any, Spec/Newton.v: Neville recursion for the Newton form, induction on n)]; n = 3 symbolic version C12_through_points; n = 2..9 searched (exact equality) + bit-exact correspondence",
-    "reproduces polynomials of degree < n (relative 1e-9)": "proved [ideal, ANY n in 2..64, END TO END: C12_polynomial_any - points in any order, ordinates p(x_j) with deg p < n => Interpolation(px, py)(x) = p(x) exactly between the nodes and derivative(x) = p'(x) (n >= 3); pieces: _newton_diff = divided differences (C12_newton_diff_any), _compute_table stores them (C12_compute_table_any), __call__ between the nodes = Horner evaluation = Newton form NF (C12_call_any), and NF reproduces every polynomial of degree < n exactly at every x (C12_interpolates_any: a degree < n polynomial with n distinct zeros is 0)]; limits: exact real arithmetic (says nothing about the 1e-9 in binary64), x at least tol away from every node (closer than tol the node ordinate is returned), the model's recursion fuel bounds n by 64; all float input forms (lists, tuples, interleaved scalars, copy) any n; n = 2..9 by correspondence + search against exact Fraction Lagrange",
+    "reproduces polynomials of degree < n (relative 1e-9)": "proved [ideal, ANY n in 2..64, END TO END: C12_polynomial_any - points in any order, ordinates p(x_j) with deg p < n => Interpolation(px, py)(x) = p(x) exactly between the nodes and derivative(x) = p'(x) (n >= 3); pieces: _newton_diff = divided differences (C12_newton_diff_any), _compute_table stores them (C12_compute_table_any), __call__ between the nodes = Horner evaluation = Newton form NF (C12_call_any), and NF reproduces every polynomial of degree < n exactly at every x (C12_interpolates_any: a degree < n polynomial with n distinct zeros is 0)]; limits: exact real arithmetic (says nothing about the 1e-9 in binary64), x at least tol away from every node (closer than tol the node ordinate is returned), the model's recursion fuel bounds n by 64; all float input forms (lists, tuples, interleaved scalars, copy) any n; n = 2..9 by correspondence + search against exact Fraction Lagrange; the oracle measures 'relative 1e-9' against max(1, max|y|) of the table (worst observed 4.5e-12 for values, 2.3e-11 for derivatives)",
     "derivative of that polynomial": "proved [ideal, ANY n in 3..64 on the stored object: the three nested generated loops of derivative() return the derivative (Coquelicot is_derive) of the Newton form through all n points, inside the table: C12_derivative_any; n = 2: slope of the chord, C12_derivative_two; symbolic n = 3 version C12_derivative]; exact real arithmetic; n = 2..9 searched",
     "independent of the order of the points and of the input form": "proved [ideal, ANY n in 2..64, two-list form: Interpolation(px, py) for symbolic lists in any order is the object with strictly increasing abscissae, ordinates carried along, divided-difference table (C12_constructor_any: every generated loop of set(), _order_points, _compute_table), and two orders of the same points give the IDENTICAL object (C12_constructor_order_independent_any; _order_points alone for any n >= 1: C12_order_points_any, C12_order_independent_any)]; two tuples and interleaved scalars give the same object as two lists for any n in 2..64 and the copy constructor copies the fields of any table (C12_constructor_forms_any, C12_copy_any); NOT proved: the ordinates-only form Interpolation([y..]), mixed list/tuple arguments, the dropped dangling argument and Angle/int entries (searched); n = 2..9 all forms searched; call sequences copy/set searched (key copy-shares-state)",
-    "abscissae outside the table refused with ValueError": "proved [ideal, ANY n: __call__ beyond the tolerance of every node and outside [x_0, x_(n-1)] gives ValueError (C12_refused_any, n >= 1), derivative immediately outside (C12_derivative_any, n >= 3); within tol of an end node __call__ returns that node's ordinate]; n = 3 symbolic version C12_refused; searched n = 2..9",
-    "duplicated abscissae refused with ValueError": "proved [ideal, ANY n >= 2, two-list form: any pair of abscissae closer than tol gives ValueError (C12_duplicates_any: nested duplicate-test loops, first flagged pair in scan order)]; other input forms searched (exact and 5e-11-apart duplicates) + correspondence",
-    "root(): returned abscissa inside [xl, xh] (ordered, clamped) with |interpolant| <= tol": "proved [ideal, ANY table, max_iter in 0..4999; partial correctness: termination with a root unproved - the outcome is such a float or ValueError, nothing else (OutOfFuel/TypeError/Unsupported excluded): C12_root_step (loop, fuel induction), C12_root_sound (entry paths in-table incl. xl = 0, reversed, reversed+outside, clamped-low, default; 'only xh above the table' not a separate theorem); callee assumption (__call__/derivative return float or ValueError) discharged for EVERY stored table of n = 3..64 points (C12_root_any: no assumption left; __call__/derivative proved total by loop induction) and for the symbolic 3-point table (C12_root_witness)]; proved [B64, explicit grid of 24 tables x all unequal limit pairs: C12_grid_b64, 756 roots found: C12_grid_found]",
-    "root(): a value IS returned whenever the interpolant changes sign (convergence within max_iter)": "unproved (searched): not provable in general; holds on the B64 grid (C12_grid_b64: ValueError only without a clear sign change) and in the search on tables with |y| <= 1000",
+    "abscissae outside the table refused with ValueError": "proved [ideal, ANY n: __call__ beyond the tolerance of every node and outside [x_0, x_(n-1)] gives ValueError (C12_refused_any, n >= 1), derivative immediately outside (C12_derivative_any, n >= 3); within tol of an end node __call__ returns that node's ordinate]; n = 3 symbolic version C12_refused; searched n = 2..9; the oracle demands the refusal of __call__ from 2e-10 beyond the table on (and of derivative() from the next float on): closer than the tolerance to an end node the library's documented tolerance semantics identify the abscissa with that node",
+    "duplicated abscissae refused with ValueError": "proved [ideal, ANY n >= 2, two-list form: any pair of abscissae closer than tol gives ValueError (C12_duplicates_any: nested duplicate-test loops, first flagged pair in scan order)]; other input forms searched (exact and 5e-11-apart duplicates) + correspondence; 'duplicated' follows the library's documented tolerance semantics: abscissae closer than the tolerance (the oracle uses 0 and 5e-11) must be refused",
+    "root(): returned abscissa inside [xl, xh] (ordered, clamped) with |interpolant| <= tol": "proved [ideal, ANY table, max_iter in 0..4999; partial correctness: termination with a root unproved - the outcome is such a float or ValueError, nothing else (OutOfFuel/TypeError/Unsupported excluded): C12_root_step (loop, fuel induction), C12_root_sound (entry paths in-table incl. xl = 0, reversed, reversed+outside, clamped-low, default; 'only xh above the table' not a separate theorem); callee assumption (__call__/derivative return float or ValueError) discharged for EVERY stored table of n = 3..64 points (C12_root_any: no assumption left; __call__/derivative proved total by loop induction) and for the symbolic 3-point table (C12_root_witness)]; proved [B64, explicit grid of 24 tables x all unequal limit pairs: C12_grid_b64, 756 roots found: C12_grid_found]; the oracle demands |P_exact(r)| <= get_tolerance() + 64 units in the last place of the Horner sums (rounding of the object's own evaluation, eval_noise), or r closer than the tolerance to a node that is a zero in that sense (tolerance semantics)",
+    "root(): a value IS returned whenever the interpolant changes sign (convergence within max_iter)": "unproved (searched): not provable in general; a step towards it after the repair edeb4b4: every fallback step (derivative too small) shrinks the bracket to at most 90 % (C12_root_progress); holds on the B64 grid (C12_grid_b64: ValueError only without a clear sign change); searched on ALL tables; known finding root-tolerance-below-rounding-noise-large-ordinates: next to ordinates above 1000 the absolute tolerance 1e-10 can be below what binary64 resolves (evaluation noise >= tol/2, or no float near the zero has |value| <= tol) and root()/minmax() give up with 'Too many iterations' - everything else is root-not-found / minmax-not-found",
     "minmax(): abscissa inside the interval where the derivative vanishes": "proved [B64, grid only: C12_grid_b64 with the independent Lagrange derivative]; no ideal-instance theorem; searched",
     "conjunction helpers return the time of zero interpolated difference": "unproved (searched): independent Lagrange interpolation of the coordinate differences, 1e-9; bit-exact correspondence of the four helpers",
     "Angle ordinates (conjunction helpers) with rough data": "refuted: known finding angle-ordinates-newton-derivative-wraps - Interpolation([-3..3],[Angle(a) for a in [-1.57,-3.0,-1.29,-0.7,-0.33,-0.06,0.28]]).root() raises ValueError('Too many iterations'), derivative(Angle(2.5)) = 14.5165 instead of 0.0815",
@@ -117,6 +119,59 @@ def pabs_eval(p, x):
     for c in reversed(p):
         r = r * x + abs(c)
     return r
+
+
+EPS = Fr(1, 2**53)
+
+def _divdiff(xs, ys):
+    """abscissae and, for each order k, a bound on |f[x0..xk]| AND on the rounding error accumulated while the
+    object computes it: the divided-difference recursion run on absolute values
+    (a[s][k] = (a[s][k-1] + a[s+1][k-1]) / |x_s - x_(s+k)|); the differences themselves can be tiny through
+    cancellation while their rounding errors have this size times a few units in the last place"""
+    n = len(xs); X = [Fr(v) for v in xs]; dd = [[abs(Fr(y)) for y in ys]]
+    for k in range(1, n):
+        dd.append([(dd[k - 1][i] + dd[k - 1][i + 1]) / abs(X[i] - X[i + k]) for i in range(n - k)])
+    return X, [dd[k][0] for k in range(n)]
+
+def newton_cond(xs, ys, x):
+    """sum_k |f[x0..xk]| prod_{i<k} |x - x_i| : the quantity that bounds (times a few units in the last place)
+    the rounding error of the Horner evaluation of the Newton form at x"""
+    X, c = _divdiff(xs, ys); xf = Fr(x); s = Fr(0); w = Fr(1)
+    for k in range(len(X)):
+        s += abs(c[k]) * w; w *= abs(xf - X[k])
+    return s
+
+def deriv_cond(xs, ys, x):
+    """the same for derivative(): sum_k |f[x0..xk]| sum_{j<k} prod_{i<k, i != j} |x - x_i|"""
+    X, c = _divdiff(xs, ys); xf = Fr(x); s = Fr(0)
+    for k in range(1, len(X)):
+        inner = Fr(0)
+        for j in range(k):
+            w = Fr(1)
+            for i in range(k):
+                if i != j: w *= abs(xf - X[i])
+            inner += w
+        s += abs(c[k]) * inner
+    return s
+
+def lebesgue(xs, x):
+    X = [Fr(v) for v in xs]; xf = Fr(x); s = Fr(0)
+    for i in range(len(X)):
+        w = Fr(1)
+        for j in range(len(X)):
+            if j != i: w *= (xf - X[j]) / (X[i] - X[j])
+        s += abs(w)
+    return s
+
+def eval_noise(what, xs, ys, D, x):
+    """a priori size (in absolute terms) of the rounding error with which the object evaluates, at x, the function
+    whose zero root()/minmax() looks for.  root: the interpolant.  minmax: the interpolant through the COMPUTED
+    derivative values at the nodes (their own rounding, carried through the interpolation by the Lebesgue
+    function) plus its evaluation."""
+    if what == "root":
+        return EPS * newton_cond(xs, ys, x)
+    dys = [float(peval(D, t)) for t in xs]
+    return EPS * (newton_cond(xs, dys, x) + len(xs) * max(deriv_cond(xs, ys, t) for t in xs) * lebesgue(xs, x))
 
 
 # ----------------------------------------------------------------------------------------------
@@ -181,8 +236,9 @@ REPLAY = ("PYTHONPATH=/repo /venv/bin/python -c \"from pymeeus.Interpolation imp
 
 
 # root()/minmax() stop at |y| <= 1e-10 ABSOLUTE: with ordinates of size 1e6 the rounding noise of the Horner
-# evaluation (~1e-16 * 1e6) is above that and the loop cannot terminate; the root clauses are therefore
-# examined on tables with |y| <= 1000 (noise < 1e-12)
+# evaluation (~1e-16 * 1e6) is above that and the loop cannot terminate.  The search examines the root clauses on
+# ALL tables and routes exactly that situation to the known-finding key Oracle.NOISE_KEY (envelope:
+# Oracle.noise_excused); YMAX_ROOT only keeps the bit-exact correspondence cases away from 1000-iteration runs.
 YMAX_ROOT = 1000.0
 
 
@@ -234,13 +290,13 @@ class Oracle:
         for x in pts:
             if not (xs[0] <= x <= xs[-1]): continue
             self.n += 2
-            ref = peval(P, x); scale = max(pabs_eval(P, x), Fr(ymax))
+            ref = peval(P, x); scale = Fr(ymax)
             try: v = it(x)
             except Exception as ex: v = ex
             if not isinstance(v, float) or not abs(Fr(v) - ref) <= Fr(1, 10**9) * scale:
                 self.report("interpolated-value", "i(%r) = %r, the polynomial through the points gives %.17g"
                             % (x, v, float(ref)), ctor, "i(%r)" % x, [sx, sy, x]); return None
-            dref = peval(D, x); dscale = max(pabs_eval(D, x), Fr(ymax))
+            dref = peval(D, x); dscale = Fr(ymax)
             try: dv = it.derivative(x)
             except Exception as ex: dv = ex
             if not isinstance(dv, float) or not abs(Fr(dv) - dref) <= Fr(1, 10**9) * dscale:
@@ -248,17 +304,17 @@ class Oracle:
                             % (x, dv, float(dref)), ctor, "i.derivative(%r)" % x, [sx, sy, x]); return None
             if cs is not None:
                 # polynomial data of degree < n: the polynomial itself is reproduced
-                t = peval(cs, x); ts = max(pabs_eval(cs, x), Fr(ymax))
+                t = peval(cs, x); ts = Fr(ymax)
                 if not abs(Fr(v) - t) <= Fr(1, 10**9) * ts:
                     self.report("polynomial-reproduced", "data from the polynomial %s (degree %d < %d points): i(%r) = %r, polynomial = %.17g"
                                 % ([float(c) for c in cs], len(cs) - 1, n, x, v, float(t)), ctor, "i(%r)" % x, [sx, sy, x]); return None
-                td = peval(pderiv(cs), x); tds = max(pabs_eval(pderiv(cs), x), Fr(ymax))
+                td = peval(pderiv(cs), x); tds = Fr(ymax)
                 if not abs(Fr(dv) - td) <= Fr(1, 10**9) * tds:
                     self.report("polynomial-derivative", "data from the polynomial %s: i.derivative(%r) = %r, exact derivative = %.17g"
                                 % ([float(c) for c in cs], x, dv, float(td)), ctor, "i.derivative(%r)" % x, [sx, sy, x]); return None
         for k in range(n):       # derivative at the nodes (used by minmax)
             self.n += 1
-            dref = peval(D, xs[k]); dscale = max(pabs_eval(D, xs[k]), Fr(ymax))
+            dref = peval(D, xs[k]); dscale = Fr(ymax)
             try: dv = it.derivative(xs[k])
             except Exception as ex: dv = ex
             if not isinstance(dv, float) or not abs(Fr(dv) - dref) <= Fr(1, 10**9) * dscale:
@@ -369,6 +425,57 @@ class Oracle:
                        + [rng.uniform(xs[0], xs[-1]) for _ in range(6)]))
         return [(x, peval(P, x)) for x in g]
 
+    NOISE_KEY = "root-tolerance-below-rounding-noise-large-ordinates"
+
+    def is_zero(self, what, xs, ys, it, Q, r):
+        """the clause 'the interpolant (its derivative) vanishes at r to the object's tolerance': the EXACT value of the
+        polynomial Q at r is at most get_tolerance() plus the rounding with which the object evaluates it there
+        (64 units in the last place of the Horner sums, eval_noise).  The library's documented tolerance semantics
+        identify an abscissa closer than the tolerance to a node with that node: r also counts as a zero when it is
+        within the tolerance of a node whose (exact) value is a zero in the same sense."""
+        tol = Fr(it.get_tolerance())
+        if abs(peval(Q, r)) <= tol + 64 * eval_noise(what, xs, ys, Q, r):
+            return True
+        for t in xs:
+            if abs(Fr(r) - Fr(t)) < tol and abs(peval(Q, t)) <= tol + 64 * eval_noise(what, xs, ys, Q, t):
+                return True
+        return False
+
+    def noise_excused(self, what, xs, ys, it, Q, a, b, ex):
+        """envelope of the known finding NOISE_KEY: the absolute tolerance (1e-10) is below the rounding noise of the
+        object's own evaluation next to large ordinates: the iteration oscillates between neighbouring floats whose
+        computed values are all noise, and gives up.  Only if ALL of: the exception is 'Too many iterations'; the
+        ordinates (minmax: the nodal derivatives) exceed 1000; and at the zero of the exact polynomial in the interval
+        (bisection on exact values down to adjacent floats), among the 17 floats around it, EITHER the object's own
+        evaluation is wrong by at least half the tolerance somewhere (measured |computed - exact|: rounding noise)
+        OR no float at all has a computed |value| <= tol (the slope is so steep that one unit in the last place of the
+        abscissa changes the value by more than the tolerance: the stopping criterion is unreachable in binary64)."""
+        if "Too many iterations" not in str(ex): return False
+        big = max(abs(float(peval(Q, t))) for t in xs) if what == "minmax" else max(abs(y) for y in ys)
+        if big <= 1000.0: return False
+        try:
+            obj = it if what == "root" else self.I(list(xs), [it.derivative(t) for t in xs])
+            tol = it.get_tolerance()
+            lo, hi = float(a), float(b); flo, fhi = peval(Q, lo), peval(Q, hi)
+            if flo == 0 or fhi == 0 or (flo > 0) == (fhi > 0): return False
+            for _ in range(200):
+                mid = 0.5 * (lo + hi)
+                if mid <= lo or mid >= hi: break
+                fm = peval(Q, mid)
+                if fm == 0: lo = hi = mid; break
+                if (fm > 0) == (flo > 0): lo, flo = mid, fm
+                else: hi = mid
+            pts = [lo]
+            for _ in range(8):
+                pts = [math.nextafter(pts[0], -math.inf)] + pts + [math.nextafter(pts[-1], math.inf)]
+            pts = [p for p in pts if xs[0] <= p <= xs[-1]]
+            vals = [obj(p) for p in pts]
+            noise = max(abs(Fr(v) - peval(Q, p)) for v, p in zip(vals, pts))
+            unreachable = all(abs(v) > tol for v in vals)
+            return noise >= Fr(tol) / 2 or unreachable
+        except Exception:
+            return False
+
     def check_roots(self, rng, xs, ys, it, P, ctor, what, nmax=6):
         """what = 'root' (P is the interpolant) or 'minmax' (P is its derivative)"""
         I = self.I
@@ -395,14 +502,15 @@ class Oracle:
                 try:
                     r = getattr(it, what)(xl, xh)
                 except Exception as ex:
-                    self.report(what + "-not-found", "%s raises %s(%s) although the %s is %.3g at %r and %.3g at %r (sign change)"
-                                % (call, type(ex).__name__, ex, "interpolant" if what == "root" else "derivative",
+                    key = self.NOISE_KEY if self.noise_excused(what, xs, ys, it, P, a, b, ex) else what + "-not-found"
+                    self.report(key, "%s raises %s(%s) although the %s is %.3g at %r and %.3g at %r (sign change)"
+                                % (call, type(ex).__name__, " ".join(str(ex).split()), "interpolant" if what == "root" else "derivative",
                                    float(peval(P, a)), a, float(peval(P, b)), b), ctor, call, [xs, ys, xl, xh]); return
                 if not isinstance(r, (int, float)) or not (a <= r <= b):
                     self.report(what + "-outside-interval", "%s = %r is outside [%r, %r]" % (call, r, a, b), ctor, call, [xs, ys, xl, xh]); return
                 res = peval(P, r)
-                if not abs(res) <= Fr(1, 10**9) * Fr(max(big, float(pabs_eval(P, r)))):
-                    self.report(what + "-not-a-zero", "%s = %r where the %s is %.3g (not zero to 1e-9)"
+                if not self.is_zero(what, xs, ys, it, P, r):
+                    self.report(what + "-not-a-zero", "%s = %r where the %s is %.3g (not zero to the object's tolerance)"
                                 % (call, r, "interpolant" if what == "root" else "derivative", float(res)), ctor, call, [xs, ys, xl, xh]); return
                 done += 1
         if done: self.nontrivial += 1
@@ -435,8 +543,7 @@ class Oracle:
                         continue
                     except Exception as ex:
                         self.report(what + "-wrong-exception", "%s raises %s" % (call, type(ex).__name__), ctor, call, [xs, ys, xl, xh]); return
-                    if not isinstance(r, (int, float)) or not (a <= r <= b) or \
-                            not abs(peval(P, r)) <= Fr(1, 10**9) * Fr(max(big, float(pabs_eval(P, r)))):
+                    if not isinstance(r, (int, float)) or not (a <= r <= b) or not self.is_zero(what, xs, ys, it, P, r):
                         self.report(what + "-not-a-zero", "%s = %r: not a zero inside the interval (value %.3g there; the limit %r is an exact zero)"
                                     % (call, r, float(peval(P, r)) if isinstance(r, (int, float)) else float("nan"), z), ctor, call, [xs, ys, xl, xh]); return
         # no sign change on a clear interval: a returned value must still be a zero inside the interval
@@ -452,7 +559,7 @@ class Oracle:
             except Exception as ex:
                 self.report(what + "-wrong-exception", "i.%s(%r, %r) raises %s" % (what, a, b, type(ex).__name__), ctor,
                             "i.%s(%r, %r)" % (what, a, b), [xs, ys, a, b]); return
-            if not (a <= r <= b) or not abs(peval(P, r)) <= Fr(1, 10**9) * Fr(max(big, float(pabs_eval(P, r)))):
+            if not (a <= r <= b) or not self.is_zero(what, xs, ys, it, P, r):
                 self.report(what + "-not-a-zero", "i.%s(%r, %r) = %r: not a zero inside the interval (value %.3g)"
                             % (what, a, b, r, float(peval(P, r))), ctor, "i.%s(%r, %r)" % (what, a, b), [xs, ys, a, b]); return
 
@@ -462,13 +569,21 @@ class Oracle:
     def probe_angle_ordinates(self, rng, full):
         """With Angle ordinates `x = x - y / yp` turns the abscissa into an Angle; derivative(Angle) multiplies
         Angles, which wrap at 360, so the slope is wrong and Newton may creep past max_iter.  Only Angle-ordinate
-        tables are reported under this key; float tables never are."""
+        tables are reported under this key; float tables never are.  ENVELOPE of the known finding:
+        (a) derivative(Angle(x)) differs from derivative(x) only where a wrap is possible (the sum over j of
+            prod_{i != j} |x - x_i| of some order exceeds 360) and the wrong value is itself an Angle below 360;
+            a mismatch without a possible wrap goes to `angle-ordinates-derivative-mismatch`;
+        (b) root() / planet_star_conjunction raise 'Too many iterations' on at most 5 % of the rough probe tables
+            (measured after commit edeb4b4: 11 of 2400, at most 2 % per 200) - more goes to the `-gross` key;
+        (c) a value that IS returned must be a zero of the interpolant inside the table (else
+            `angle-ordinates-wrong-root`; a different zero than the float run finds is fine)."""
         I, A, C = self.I, self.Angle, self.C
         tabs = [[-1.57, -3.0, -1.29, -0.7, -0.33, -0.06, 0.28]]
         for _ in range(20 if not full else 200):
             m = rng.choice([7, 9])
             t = [rng.uniform(-3, -0.2) for _ in range(m - 1)] + [rng.uniform(0.1, 0.5)]
             tabs.append(t)
+        raises = []
         for da in tabs:
             m = len(da); h = m // 2; ns = [i - h for i in range(m)]
             self.n += 3
@@ -480,24 +595,38 @@ class Oracle:
             except Exception as ex:
                 self.report("construct-raises", "Interpolation(%s) raises %r" % (ctor, ex), ctor, "i._x", [ns, da]); continue
             if abs(d1 - d2) > 1e-9 * max(1.0, abs(d1)):
-                self.report(self.KNOWN_ANGLE, "derivative(Angle(%r)) = %r on Angle ordinates, derivative(%r) = %r on the same float table"
-                            % (x, d2, x, d1), ctor, "i.derivative(Angle(%r))" % x, [ns, da]); continue
+                wrap = max(sum(math.prod(abs(x - ns[i]) for i in range(k) if i != j) for j in range(k)) for k in range(2, m)) > 360.0
+                key = self.KNOWN_ANGLE if (wrap and abs(d2) < 360.0) else "angle-ordinates-derivative-mismatch"
+                self.report(key, "derivative(Angle(%r)) = %r on Angle ordinates, derivative(%r) = %r on the same float table"
+                            % (x, d2, x, d1), ctor, "i.derivative(Angle(%r))" % x, [ns, da])
             try:
                 rf = fo.root()
             except ValueError:
                 continue        # float table does not converge either: not this finding
             try:
                 ra = float(ao.root())
-                if abs(ra - rf) > 1e-6:      # a WRONG value is not the known finding (that one only fails to converge)
-                    self.report("angle-ordinates-wrong-root", "root() = %r on Angle ordinates, %r on the same float table" % (ra, rf), ctor, "i.root()", [ns, da])
+                if not (ns[0] <= ra <= ns[-1]) or abs(fo(ra)) > 1e-9:
+                    self.report("angle-ordinates-wrong-root", "root() = %r on Angle ordinates is not a zero of the interpolant (value %r; the float table gives %r)"
+                                % (ra, fo(ra) if ns[0] <= ra <= ns[-1] else None, rf), ctor, "i.root()", [ns, da])
             except ValueError as ex:
-                self.report(self.KNOWN_ANGLE if "Too many iterations" in str(ex) else "angle-ordinates-root-raises", "root() on Angle ordinates raises ValueError(%s) although the float table gives %r (sign change %r .. %r)"
-                            % (" ".join(str(ex).split()), rf, da[0], da[-1]), ctor, "i.root()", [ns, da])
+                if "Too many iterations" in str(ex):
+                    raises.append(("root() on Angle ordinates raises ValueError(%s) although the float table gives %r (sign change %r .. %r)"
+                                   % (" ".join(str(ex).split()), rf, da[0], da[-1]), ctor, "i.root()", [ns, da]))
+                else:
+                    self.report("angle-ordinates-root-raises", "root() on Angle ordinates raises ValueError(%s)" % " ".join(str(ex).split()), ctor, "i.root()", [ns, da])
             try:
                 n0, _ = C.planet_star_conjunction([A(100.0 + a) for a in da], [A(10.0 + 0.1 * i) for i in range(m)], A(100.0), A(10.0))
             except ValueError as ex:
-                self.report(self.KNOWN_ANGLE if "Too many iterations" in str(ex) else "star-conjunction-raises", "planet_star_conjunction with RA differences %r raises ValueError(%s); the float table has its root at %r"
-                            % (da, " ".join(str(ex).split()), rf), ctor, "i.root()", [ns, da])
+                if "Too many iterations" in str(ex):
+                    raises.append(("planet_star_conjunction with RA differences %r raises ValueError(%s); the float table has its root at %r"
+                                   % (da, " ".join(str(ex).split()), rf), ctor, "i.root()", [ns, da]))
+                else:
+                    self.report("star-conjunction-raises", "planet_star_conjunction with RA differences %r raises ValueError(%s)" % (da, " ".join(str(ex).split())), ctor, "i.root()", [ns, da])
+        # share bound on the raises (each table can contribute two: root and the helper)
+        bound = 2 * max(1, math.ceil(0.05 * len(tabs)))
+        key = self.KNOWN_ANGLE if len(raises) <= bound else self.KNOWN_ANGLE + "-gross"
+        for what, ctor, call, inp in raises:
+            self.report(key, what + (" [%d raises on %d probe tables, bound %d]" % (len(raises), len(tabs), bound)), ctor, call, inp)
 
     # --- sequences: a copy and its original must not share mutable state --------------------------
     def check_sequences(self, rng, full):
@@ -516,7 +645,7 @@ class Oracle:
                 for k in range(len(xs) - 1):
                     m = 0.5 * (xs[k] + xs[k + 1])
                     v = o(m)
-                    if not abs(Fr(v) - peval(P, m)) <= Fr(1, 10**9) * max(pabs_eval(P, m), Fr(1)):
+                    if not abs(Fr(v) - peval(P, m)) <= Fr(1, 10**9) * Fr(max(1.0, max(abs(t) for t in ys))):
                         return "value at %r is %r, polynomial through its table gives %.17g" % (m, v, float(peval(P, m)))
                     o.derivative(m)
             except Exception as ex:
@@ -712,9 +841,9 @@ def search(rng, tier, deep):
             continue
         it, P, D, ctor = r
         O.check_refusals(rng, xs, ys, it, ctor)
-        if max(abs(y) for y in ys) <= YMAX_ROOT:
-            O.check_roots(rng, xs, ys, it, P, ctor, "root")
-        if n >= 3 and max(abs(float(peval(D, x))) for x in xs) <= YMAX_ROOT:
+        # the root / extremum clauses run on EVERY table (the property's quantifier has no bound on the ordinates)
+        O.check_roots(rng, xs, ys, it, P, ctor, "root")
+        if n >= 3:
             O.check_roots(rng, xs, ys, it, D, ctor, "minmax")
         if len(O.findings) >= 40: break
     # documented examples
@@ -737,10 +866,10 @@ def search(rng, tier, deep):
     O.probe_angle_ordinates(rng, full)
     stats = {"evaluations": O.n, "distinct_nontrivial": O.nontrivial,
              "rule": ("%d tables of 2-9 points (equal / dyadic / arbitrary spacing; data: %s), each supplied shuffled and in every input form; "
-                      "values and derivatives compared with the exact (Fraction) Lagrange polynomial to relative 1e-9 between and next to the nodes; "
+                      "values and derivatives compared with the exact (Fraction) Lagrange polynomial to 1e-9 relative to max(1, max|y|) between and next to the nodes; "
                       "ValueError outside the table (incl. 2e-10 beyond the ends) and for duplicated abscissae; root()/minmax() on up to 6 "
                       "sign-changing sub-intervals per table in both orientations and with out-of-table limits: result inside the clamped interval, "
-                      "exact polynomial (resp. derivative) zero there to 1e-9; the four Coordinates helpers against an independent Lagrange interpolation; call sequences (copy, then set() on either object) after which both objects must still represent their own tables")
+                      "exact polynomial (resp. derivative) zero there to the object's tolerance (1e-10) plus the rounding of its own evaluation, on ALL tables; the four Coordinates helpers against an independent Lagrange interpolation; call sequences (copy, then set() on either object) after which both objects must still represent their own tables")
                      % (ntab, ", ".join("%s %d" % kv for kv in sorted(kinds.items()))),
              "samples": [{"input": "Interpolation([-1.0, 0.0, 1.0], [-2.0, 3.0, 2.0]).root()", "checked": "-0.72075922 inside [-1, 1], P(root) = 0 to 1e-9"}],
              "exhaustive_search": False}
